@@ -2,7 +2,7 @@
     the family number; the verdict says whether the implementation's observed
     behaviour equals the model's. *)
 From Coq Require Import List ZArith Bool.
-From FF Require Import Sx Dispatch TaskTree StoreModel StoreCheck.
+From FF Require Import Sx Dispatch TaskTree StoreModel StoreCheck PreCheck EngineMon.
 Import ListNotations.
 Local Open Scope Z_scope.
 
@@ -11,8 +11,12 @@ Definition run_monitor (family : Z) (c : sx) : option bool :=
   | 7 => monitor_dispatch c
   | 20 => monitor_store_trace c
   | 21 => monitor_worker_key_case c
-  | _ => None
+  | 40 => monitor_precheck c
+  | _ => if (100 <? family) && (family <? 200) then monitor_journal (family - 100) c else None
   end.
+
+Definition run_explain (family : Z) (c : sx) : sx :=
+  if (100 <? family) && (family <? 200) then explain_journal (family - 100) c else L [].
 
 Definition run_case (family : Z) (c : sx) : verdict :=
   match family with
@@ -24,5 +28,6 @@ Definition run_case (family : Z) (c : sx) : verdict :=
   | 20 => check_store_trace c
   | 21 => check_worker_key_case c
   | 22 => check_flake_case c
-  | _ => BadCase 0
+  | 40 => check_precheck c
+  | _ => if (100 <? family) && (family <? 200) then check_journal_store c else BadCase 0
   end.
